@@ -43,8 +43,8 @@ def concrete_profile(ex, st, counts, tag='profile'):
     (counts: {field name: n}); explicit entries make deep copies independent (lazily symbolic map bases would alias their elements)"""
     UP = ex.ir.typeid(M + '.userProfile'); vals = []
     for f in ex.ir.fields(UP):
-        k, t = ex.ir.under(f['type'])
-        if k == 'map':
+        t = ex.ir.under(f['type'])[1]
+        if t['kind'] == 'map':
             cell = {'base': None, 'elem': t['elem'], 'key': t['key'], 'lazy': {}, 'writes': []}
             keys = []
             for i in range(counts.get(f['name'], 0)):
